@@ -1,15 +1,15 @@
 #!/bin/bash
 # validate_seeded.sh <Cxx> <mN>: confirm a sub-agent's seeded change independently in the scratch worktree /tmp/mut/<Cxx>.
 # Prints one JSON line. Used during the build round only (not part of any registered check).
-P=$1; M=$2; WT=/tmp/mut/$P; OUT=/tmp/mut/out/$P/$M
+P=$1; M=$2; B=${MUTBASE:-/tmp/mut}; WT=$B/$P; OUT=$B/out/$P/$M
 cd $WT || exit 2
 git checkout -q -- . ; git clean -fdq biobalm tests 2>/dev/null
 clean_status=$(git status --porcelain | grep -v '^??' | wc -l)
-PYTHONPATH=$WT timeout 300 /venv/bin/python $OUT/demo.py >/tmp/mut/out/$P/$M/val_demo_clean.log 2>&1; d0=$?
+PYTHONPATH=$WT timeout 300 /venv/bin/python $OUT/demo.py >$OUT/val_demo_clean.log 2>&1; d0=$?
 if ! git apply --check $OUT/patch.diff 2>/dev/null; then echo "{\"id\":\"$P-$M\",\"applies\":false}"; exit 0; fi
 git apply $OUT/patch.diff
 files=$(git diff --name-only | tr '\n' ' ')
 suite=$(PYTHONPATH=$WT timeout 1200 /venv/bin/python -m pytest -q -p no:cacheprovider --timeout=900 -n 4 2>&1 | tail -1)
-PYTHONPATH=$WT timeout 300 /venv/bin/python $OUT/demo.py >/tmp/mut/out/$P/$M/val_demo_mut.log 2>&1; d1=$?
+PYTHONPATH=$WT timeout 300 /venv/bin/python $OUT/demo.py >$OUT/val_demo_mut.log 2>&1; d1=$?
 git checkout -q -- .
 echo "{\"id\":\"$P-$M\",\"applies\":true,\"files\":\"$files\",\"suite\":\"$suite\",\"demo_clean_exit\":$d0,\"demo_mutant_exit\":$d1}"
